@@ -1,105 +1,114 @@
 package dotgit
 
 import (
+	"errors"
 	"fmt"
 	"os"
+	"runtime"
+	"time"
 
 	"github.com/go-git/go-billy/v6"
+	"github.com/go-git/go-billy/v6/util"
 
 	"github.com/go-git/go-git/v6/plumbing"
 	"github.com/go-git/go-git/v6/storage"
-	"github.com/go-git/go-git/v6/utils/ioutil"
 )
 
-func (d *DotGit) setRef(fileName, content string, old *plumbing.Reference) (err error) {
-	if billy.CapabilityCheck(d.fs, billy.ReadAndWriteCapability) {
-		return d.setRefRwfs(fileName, content, old)
-	}
+const (
+	// refLockSuffix is appended to the path of a loose reference to name its
+	// lock file, as git does ("refs/heads/main.lock", "HEAD.lock").
+	refLockSuffix = ".lock"
+	// refLockTimeout bounds the wait for a reference that another writer has
+	// locked. Writers hold the lock for a handful of file operations, so a
+	// lock that outlives this is taken to be left over from a writer that
+	// died; like git, go-git then reports it instead of breaking it.
+	refLockTimeout = time.Second
+)
 
-	return d.setRefNorwfs(fileName, content, old)
+// lockRef takes the lock of the loose reference stored at fileName by creating
+// "<fileName>.lock" exclusively. Whoever created that file owns the reference
+// until the file is renamed over the reference or removed (unlockRef). This is
+// git's own protocol, so it also excludes git processes working in the same
+// repository. A lock held by someone else is polled, with a growing pause,
+// for the given time (refLockTimeout for updates).
+func (d *DotGit) lockRef(fileName string, timeout time.Duration) (billy.File, error) {
+	start := time.Now()
+	for pause := time.Millisecond; ; pause *= 2 {
+		f, err := d.fs.OpenFile(fileName+refLockSuffix, os.O_WRONLY|os.O_CREATE|os.O_EXCL, 0o666)
+		if err == nil || !os.IsExist(err) {
+			return f, err
+		}
+		if time.Since(start) >= timeout {
+			return nil, fmt.Errorf("reference is locked (if no other process is updating it, remove the file by hand): %w", err)
+		}
+		time.Sleep(pause)
+	}
 }
 
-func (d *DotGit) setRefRwfs(fileName, content string, old *plumbing.Reference) (err error) {
-	// If we are not checking an old ref, just truncate the file.
-	mode := os.O_RDWR | os.O_CREATE
-	if old == nil {
-		mode |= os.O_TRUNC
-	} else if _, serr := d.fs.Stat(fileName); serr != nil && os.IsNotExist(serr) {
-		// There is no loose file: the value to compare with lives in
-		// packed-refs, or nowhere. Compare before creating a loose file, so
-		// that a refused update does not leave an empty ref file behind
-		// (which every later listing would fail on).
-		ref, perr := d.packedRef(old.Name())
-		if perr != nil {
-			return perr
-		}
-		if ref.Hash() != old.Hash() {
-			return storage.ErrReferenceHasChanged
-		}
-	}
-
-	f, err := d.fs.OpenFile(fileName, mode, 0o666)
-	if err != nil {
-		return err
-	}
-
-	defer ioutil.CheckClose(f, &err)
-
-	// Lock is unlocked by the deferred Close above. This is because Unlock
-	// does not imply a fsync and thus there would be a race between
-	// Unlock+Close and other concurrent writers. Adding Sync to go-billy
-	// could work, but this is better (and avoids superfluous syncs).
-	if locker, ok := f.(billy.Locker); ok {
-		err = locker.Lock()
-		if err != nil {
-			return err
-		}
-	}
-
-	// this is a no-op to call even when old is nil.
-	err = d.checkReferenceAndTruncate(f, old)
-	if err != nil {
-		return err
-	}
-
-	_, err = f.Write([]byte(content))
-	return err
+// unlockRef gives up a lock taken with lockRef without touching the reference.
+func (d *DotGit) unlockRef(fileName string, lock billy.File) error {
+	_ = lock.Close()
+	return d.removeRefLock(fileName)
 }
 
-// There are some filesystems that don't support opening files in RDWD mode.
-// In these filesystems the standard SetRef function can not be used as it
-// reads the reference file to check that it's not modified before updating it.
+// removeRefLock deletes the lock file of the reference at fileName. A lock
+// file that stays behind blocks the reference until somebody deletes it by
+// hand, so a failed removal (Windows: a file that a scanner has just opened
+// cannot be deleted for a moment) is tried again before it is reported.
+func (d *DotGit) removeRefLock(fileName string) (err error) {
+	for try := 0; try < 3; try++ {
+		time.Sleep(time.Duration(try) * 5 * time.Millisecond)
+		err = d.fs.Remove(fileName + refLockSuffix)
+		if err == nil || os.IsNotExist(err) {
+			return nil
+		}
+	}
+	return fmt.Errorf("reference lock left behind: %w", err)
+}
+
+// setRef stores content as the loose reference at fileName, optionally only
+// if its current value (the loose file or else its packed-refs entry) is old.
 //
-// This version of the function writes the reference without extra checks
-// making it compatible with these simple filesystems. This is usually not
-// a problem as they should be accessed by only one process at a time.
-func (d *DotGit) setRefNorwfs(fileName, content string, old *plumbing.Reference) error {
-	_, err := d.fs.Stat(fileName)
-	if err == nil && old != nil {
-		fRead, err := d.fs.Open(fileName)
-		if err != nil {
-			return err
-		}
-
-		ref, err := d.readReferenceFrom(fRead, old.Name().String())
-		_ = fRead.Close()
-
-		if err != nil {
-			return err
-		}
-
-		if ref.Hash() != old.Hash() {
-			return fmt.Errorf("reference has changed concurrently")
-		}
-	}
-
-	f, err := d.fs.Create(fileName)
+// The new value is written to the lock file, which is then renamed over the
+// reference: readers, which take no lock, and a process that dies half way
+// see the old value or the new one, never an empty or partial file. Nothing
+// but a lock file that is removed again is created when the update is refused
+// or fails. Neither step needs a file opened for reading and writing, so
+// filesystems without billy.ReadAndWriteCapability take the same path.
+func (d *DotGit) setRef(fileName, content string, old *plumbing.Reference) error {
+	lock, err := d.lockRef(fileName, refLockTimeout)
 	if err != nil {
 		return err
 	}
 
-	defer func() { _ = f.Close() }()
+	if old != nil {
+		var ref *plumbing.Reference
+		if ref, err = d.Ref(plumbing.ReferenceName(fileName)); err == nil && ref.Hash() != old.Hash() {
+			err = storage.ErrReferenceHasChanged
+		}
+	}
+	if err == nil {
+		_, err = lock.Write([]byte(content))
+	}
+	// Closed before the rename: Windows does not rename an open file.
+	if cerr := lock.Close(); err == nil {
+		err = cerr
+	}
+	renamed := false
+	if err == nil {
+		err = d.fs.Rename(fileName+refLockSuffix, fileName)
+		renamed = err == nil
+		if errors.Is(err, billy.ErrNotSupported) || (err != nil && runtime.GOOS == "windows") {
+			// No rename on this filesystem, or (Windows) a reader has the
+			// reference open: overwrite it in place, still under the lock.
+			err = util.WriteFile(d.fs, fileName, []byte(content), 0o666)
+		}
+	}
+	if !renamed {
+		if uerr := d.removeRefLock(fileName); err == nil {
+			err = uerr
+		}
+	}
 
-	_, err = f.Write([]byte(content))
 	return err
 }
